@@ -80,8 +80,10 @@ impl io::Write for SharedWriter {
 }
 
 fn reference(v: &Value, default_formatter: bool, popts: PrintOptions) -> Vec<u8> {
-    let r = if default_formatter { lexpr::to_string(v) } else { lexpr::to_string_custom(v, popts) };
-    r.map(String::into_bytes).unwrap_or_default()
+    // the reference text is what printing into memory gives (to_vec is to_string
+    // without the unchecked conversion, which M17.4 checks separately)
+    let r = if default_formatter { lexpr::to_vec(v) } else { lexpr::to_vec_custom(v, popts) };
+    r.unwrap_or_default()
 }
 
 pub fn emission_class(t: &[u8], j: usize) -> &'static str {
@@ -503,7 +505,7 @@ pub fn check_sink_case(case: &SinkCase, mon: &mut Mon) {
         "popts[{}] entry={} values={:?} plan={:?}",
         opts::describe_print(case.popts),
         case.entry.name(),
-        case.values.iter().map(|v| lexpr::to_string(&v.to_value()).unwrap_or_default()).collect::<Vec<_>>(),
+        case.values.iter().map(|v| text::show(&lexpr::to_vec(&v.to_value()).unwrap_or_default())).collect::<Vec<_>>(),
         case.plan
     );
     mon.evaluations += 1;
